@@ -318,7 +318,7 @@ func snapObs(a, b snap) string {
 	} else {
 		refund = b.bal.Sub(a.bal).ExactString()
 	}
-	return fmt.Sprintf("rv0=%d rv1=%d fs0=%d fs1=%d nr0=%d nr1=%d rh0=%s rh1=%s charged=%s gained=%s", a.rv, b.rv, a.fs, b.fs, a.nr, b.nr, a.rh, b.rh, charged, refund)
+	return fmt.Sprintf("rv0=%d rv1=%d fs0=%d fs1=%d nr0=%d nr1=%d rh0=%s rh1=%s bal0=%s charged=%s gained=%s", a.rv, b.rv, a.fs, b.fs, a.nr, b.nr, a.rh, b.rh, a.bal.ExactString(), charged, refund)
 }
 
 // ---------------------------------------------------------------- RHP3 programs
@@ -688,17 +688,80 @@ func (w *hostWorld) doX3(p vhlib.ParsedLine) string {
 		fin = "ok"
 	}
 	before := w.snapshot()
+	duration := w.currentRevision().Revision.WindowEnd - w.pt.HostBlockHeight
+	var costs, stor []string
+	for _, sp := range specs {
+		c, st, ok := w.instrCost(sp, pd, duration)
+		if !ok {
+			return "res=badcase why=cost_overflow_in_harness"
+		}
+		costs, stor = append(costs, c), append(stor, st)
+	}
 	r, err := w.runProgram(prog, pd, p.U64("fcid") == 1, pay, budget, fin, needFin, p.List("mut"))
 	if errors.Is(err, errHang) {
 		return "res=hang " + snapObs(before, w.snapshot())
 	}
 	for _, sp := range specs {
-		if (sp.mn == "RR" || sp.mn == "UR") && r.res == "accept" {
+		if sp.mn == "RR" && r.res == "accept" {
 			w.poisoned = true
 		}
 	}
 	after := w.snapshot()
-	return fmt.Sprintf("res=%s k=%d outlens=%s %s", r.res, r.k, vhlib.FmtList(r.outlens), snapObs(before, after))
+	return fmt.Sprintf("res=%s k=%d outlens=%s init=%s costs=%s stor=%s %s", r.res, r.k, vhlib.FmtList(r.outlens), w.pt.InitBaseCost.ExactString(), vhlib.FmtList(costs), vhlib.FmtList(stor), snapObs(before, after))
+}
+
+// refU64 reads an operand the way a correct accessor would (0 when out of range).
+func refU64(pd []byte, off uint64) uint64 {
+	if off > uint64(len(pd)) || uint64(len(pd))-off < 8 {
+		return 0
+	}
+	return binary.LittleEndian.Uint64(pd[off:])
+}
+
+// instrCost is the price the host charges for the instruction (total, refundable storage part),
+// computed with core's price-table functions from the operands as the host reads them.
+func (w *hostWorld) instrCost(sp instrSpec, pd []byte, duration uint64) (total, storage string, ok bool) {
+	var rc crhp3.ResourceCost
+	refund := true
+	panicked, _ := vhlib.Try(func() {
+		switch sp.mn {
+		case "AS":
+			rc = w.pt.AppendSectorCost(duration)
+		case "AR":
+			rc = w.pt.AppendSectorRootCost(duration)
+		case "DS":
+			rc = w.pt.DropSectorsCost(refU64(pd, sp.arg(0)))
+		case "HS":
+			rc = w.pt.HasSectorCost()
+		case "RO":
+			rc = w.pt.ReadOffsetCost(refU64(pd, sp.arg(1)))
+		case "RS":
+			rc = w.pt.ReadSectorCost(refU64(pd, sp.arg(0)))
+		case "SW":
+			rc = w.pt.SwapSectorCost()
+		case "US":
+			rc = w.pt.UpdateSectorCost(sp.arg(1))
+		case "SS":
+			rc = w.pt.StoreSectorCost(sp.arg(1))
+		case "RV":
+			rc = w.pt.RevisionCost()
+		case "RR", "UR":
+			rc = w.pt.ReadRegistryCost()
+			refund = false // booked as RegistryRead/RegistryWrite usage, which rollback() does not refund
+		}
+	})
+	if panicked {
+		return "0", "0", false
+	}
+	var t types.Currency
+	if p, _ := vhlib.Try(func() { t, _ = rc.Total() }); p {
+		return "0", "0", false
+	}
+	st := rc.Storage
+	if !refund {
+		st = types.ZeroCurrency
+	}
+	return t.ExactString(), st.ExactString(), true
 }
 
 func parseCurrency(s string) (types.Currency, bool) {
@@ -902,10 +965,7 @@ func revisionValues(cur types.FileContractRevision, cost, collateral types.Curre
 		return 0, nil, nil, false
 	}
 	if mode == "under" {
-		if cost.IsZero() {
-			return 0, nil, nil, false
-		}
-		cost = cost.Sub(types.NewCurrency64(1))
+		cost = types.ZeroCurrency // pays nothing although the RPC has a price
 	}
 	if valid[0].Cmp(cost) < 0 || missed[0].Cmp(cost) < 0 || missed[1].Cmp(collateral) < 0 {
 		return 0, nil, nil, false
